@@ -1,4 +1,5 @@
 import Percival.Proofs.HeapDelete
+import Percival.Spec.PQ
 /-!
 # C13 helper lemmas, part 5: `ptrheap_create` (bottom-up heapify, then one notification each)
 -/
@@ -103,5 +104,95 @@ theorem create_inv (ptrs : List Nat) (hnd : ptrs.Nodup) : Inv key (create key pt
   · intro i c q h0 hc hq
     rw [notifyAll_a] at hc hq
     exact ho i c q h0 (by have := lt_of_get hc; omega) hc hq
+
+/-! ## `getmin` -/
+
+open Percival.Spec in
+theorem getmin_isLeast (h : Heap) (e : Nat) (hi : Inv key h) (hg : getmin h = some e) :
+    PQ.IsLeast key h.a.toList e := by
+  unfold getmin at hg
+  constructor
+  · rw [Array.mem_toList_iff, Array.mem_iff_getElem?]; exact ⟨0, hg⟩
+  · intro x hx
+    rw [Array.mem_toList_iff, Array.mem_iff_getElem?] at hx
+    obtain ⟨i, hx⟩ := hx
+    exact root_le key h h.a.size (hi.orderedN key _) (Nat.le_refl _) i x e (lt_of_get hx) hx hg
+
+theorem getmin_none_iff (h : Heap) : getmin h = none ↔ h.a.toList = [] := by
+  unfold getmin
+  rw [Array.getElem?_eq_none_iff]
+  constructor
+  · intro hs
+    have : h.a.size = 0 := by omega
+    have : h.a = #[] := Array.eq_empty_of_size_eq_zero this
+    rw [this]
+  · intro hs
+    have : h.a.toList.length = 0 := by rw [hs]; rfl
+    rw [Array.length_toList] at this
+    omega
+
+/-! ## The contract of `increase`/`decrease`/`increasemin`: the key of one element has changed -/
+
+theorem inv_key_congr (key' : Nat → Int) (h : Heap) (hi : Inv key h)
+    (hsame : ∀ i x : Nat, h.a[i]? = some x → key' x = key x) : Inv key' h where
+  distinct := hi.distinct
+  handles := hi.handles
+  ordered := by
+    intro i c q h0 hc hq
+    rw [hsame _ _ hc, hsame _ _ hq]; exact hi.ordered i c q h0 hc hq
+
+theorem increase_inv_key (key0 : Nat → Int) (h h' : Heap) (rc e : Nat) (hi : Inv key0 h)
+    (he : h.a[rc]? = some e) (hsame : ∀ x, x ≠ e → key x = key0 x) (hge : key0 e ≤ key e)
+    (hr : increase key h rc = some h') : Inv key h' := by
+  apply increase_inv key h h' rc hi.distinct hi.handles _ _ hr
+  · intro i c q h0 _ _ hpar hc hq
+    have hqe : q ≠ e := fun heq => hpar (hi.distinct _ _ e (heq ▸ hq) he)
+    have := hi.ordered i c q h0 hc hq
+    rw [hsame q hqe]
+    by_cases hce : c = e
+    · subst hce; omega
+    · rw [hsame c hce]; exact this
+  · intro c e' q h0 _ _ hc0 hpar he' hq
+    have hqe : q ≠ e := by
+      intro heq; have := hi.distinct _ _ e (heq ▸ hq) he; omega
+    have hee : e' ≠ e := by
+      intro heq; have := hi.distinct _ _ e (heq ▸ he') he; omega
+    rw [hsame q hqe, hsame e' hee]
+    have e1 := hi.ordered c e' e hc0 he' (by rw [hpar]; exact he)
+    have e2 := hi.ordered rc e q h0 he hq
+    omega
+
+theorem decrease_inv_key (key0 : Nat → Int) (h h' : Heap) (rc e : Nat) (hi : Inv key0 h)
+    (he : h.a[rc]? = some e) (hsame : ∀ x, x ≠ e → key x = key0 x) (hle : key e ≤ key0 e)
+    (hr : decrease key h rc = some h') : Inv key h' := by
+  apply decrease_inv key h h' rc hi.distinct hi.handles _ _ hr
+  · intro i c q h0 _ hne hc hq
+    have hce : c ≠ e := fun heq => hne (hi.distinct _ _ e (heq ▸ hc) he)
+    have := hi.ordered i c q h0 hc hq
+    rw [hsame c hce]
+    by_cases hqe : q = e
+    · subst hqe; omega
+    · rw [hsame q hqe]; exact this
+  · intro c e' q h0 hc0 _ hpar he' hq
+    have hqe : q ≠ e := by
+      intro heq; have := hi.distinct _ _ e (heq ▸ hq) he; omega
+    have hee : e' ≠ e := by
+      intro heq; have := hi.distinct _ _ e (heq ▸ he') he; omega
+    rw [hsame q hqe, hsame e' hee]
+    have e1 := hi.ordered c e' e hc0 he' (by rw [hpar]; exact he)
+    have e2 := hi.ordered rc e q h0 he hq
+    omega
+
+theorem increasemin_inv_key (key0 : Nat → Int) (h : Heap) (e : Nat) (hi : Inv key0 h)
+    (he : h.a[0]? = some e) (hsame : ∀ x, x ≠ e → key x = key0 x) (hge : key0 e ≤ key e) :
+    Inv key (increasemin key h) := by
+  apply increasemin_inv key h hi.distinct hi.handles
+  intro i c q h0 _ _ hpar hc hq
+  have hqe : q ≠ e := fun heq => hpar (hi.distinct _ _ e (heq ▸ hq) he)
+  have := hi.ordered i c q h0 hc hq
+  rw [hsame q hqe]
+  by_cases hce : c = e
+  · subst hce; omega
+  · rw [hsame c hce]; exact this
 
 end Percival.Proofs.Heap
